@@ -138,7 +138,10 @@ def script_of(nc, cmds):
         docs = []
         t = r.cmd(c, docs)
         lines.append(with_docs(t, docs) + 'echo "S$?" >>"$C10_OUT"\n')
-    return ("set -C\n" if nc else "") + "".join(r.defs) + "".join(lines)
+    # the loop guards are set (empty) from the start so that the scripts also run under `set -u`; `${k-}` is not used because
+    # brush mangles a braced expansion that follows a here-document operator on the same line (finding C10-13)
+    guards = "".join("k%d= " % i for i in range(1, r.nvar + 1))
+    return ("set -C\n" if nc else "") + (guards.rstrip() + "\n" if guards else "") + "".join(r.defs) + "".join(lines)
 
 
 def cmd_toks(c):
@@ -510,6 +513,7 @@ def decide_fd(ctx, cases):
         ctx.broken.append("harness c10 died: " + (eb + eo)[:400])
     mouts = lib.run_drv_parallel(reqs, workers=W)
     nviol = 0
+    infos = []          # per case: (nc, cmds, kind, labels of the model, comparable?) for the context sweep
     for (nc, cmds, kind), script, b, o, m in zip(cases, scripts, bouts, oouts, mouts):
         if " | S " not in m:
             ctx.violation("driver could not handle the case: " + m[:80], {"nc": nc, "cmds": cmds, "script": script}, kind="correspondence")
@@ -520,6 +524,7 @@ def decide_fd(ctx, cases):
         notes = parse_resp(mm).get("notes", "-").split(",")
         nred = script.count("<") + script.count(">") - 2 * script.count('>>"$C10_OUT"')
         ctx.count(script, nontrivial=nred >= 1, bucket=kind)
+        infos.append((nc, cmds, kind, notes, not (M is None or S is None)))
         if M is None or S is None:
             ctx.bucket("skipped_error_text_overlap")
             continue
@@ -543,7 +548,196 @@ def decide_fd(ctx, cases):
             elif nviol < 25:
                 nviol += 1
                 ctx.violation("brush differs from bash inside the proved domain", dict(case, brush=b, bash=o, model=mm))
-    return scripts, bouts
+    return scripts, bouts, infos
+
+
+# ------------------------------------------------------------------------------------------------
+# context sweep: the same cases in other execution contexts and under options that must not matter
+
+def own_fds(r):
+    """mirror of Model/Fd.lean `ownFds`"""
+    t = r[0]
+    if t == "f":
+        return [r[1] if r[1] is not None else {"r": 0, "w": 1, "a": 1, "x": 0, "c": 1}[r[2]]]
+    if t == "d":
+        fd = r[1] if r[1] is not None else (0 if r[2] else 1)
+        if r[3] is None:
+            return [fd] if r[4] else []
+        if r[3][0] == "n":
+            return [fd, r[3][1]] if (r[4] and r[3][1] != fd) else [fd]
+        return [1, 2]
+    if t == "e":
+        return [1, 2]
+    return [r[1] if r[1] is not None else 0]
+
+
+def exec_own_fds(cmds):
+    out = set()
+
+    def walk(c):
+        k = c[0]
+        if k == "X":
+            for r in c[1]:
+                out.update(own_fds(r))
+        elif k == "G":
+            for x in c[2]:
+                walk(x)
+        elif k == "U":
+            for x in c[1]:
+                walk(x)
+        elif k == "C":
+            for x in c[2]:
+                walk(x)
+    for c in cmds:
+        walk(c)
+    return out
+
+
+def renumber(cmds, delta):
+    """the same commands with other function names (a function of the generated scripts is defined and called once: its
+    loops run once, which is what the model assumes)"""
+    def walk(c):
+        k = c[0]
+        if k == "G":
+            return ("G", c[1], [walk(x) for x in c[2]], c[3])
+        if k == "U":
+            return ("U", [walk(x) for x in c[1]], c[2])
+        if k == "C":
+            return ("C", c[1] + delta, [walk(x) for x in c[2]], c[3], c[4])
+        return c
+    return [walk(c) for c in cmds]
+
+
+DEVNULL8 = ("f", 8, "r", 6)          # `8</dev/null`: a harmless redirection on the wrapper
+
+# contexts the model can express: every top-level command of the case is wrapped (the `$?` reports stay at top level),
+# or the whole command list is changed; these go through the full brush / model / bash comparison
+MODEL_CONTEXTS = {
+    "in_function": lambda nc, cmds: (nc, [("C", 90 + i, [c], [], []) for i, c in enumerate(cmds)]),
+    "two_functions_deep": lambda nc, cmds: (nc, [("C", 80 + i, [("C", 70 + i, [c], [], [])], [], []) for i, c in enumerate(cmds)]),
+    "in_function_with_definition_redirect": lambda nc, cmds: (nc, [("C", 60 + i, [c], [DEVNULL8], []) for i, c in enumerate(cmds)]),
+    "in_subshell": lambda nc, cmds: (nc, [("U", [c], []) for c in cmds]),
+    "in_group_with_redirect": lambda nc, cmds: (nc, [("G", 0, [c], [DEVNULL8]) for c in cmds]),
+    "in_for_body": lambda nc, cmds: (nc, [("G", 1, [c], []) for c in cmds]),
+    "in_loop_fed_by_done_redirect": lambda nc, cmds: (nc, [("G", 3, [c], [("f", None, "r", 3)]) for c in cmds]),
+    "run_twice": lambda nc, cmds: (nc, list(cmds) + renumber(cmds, 30)),
+    "after_exec_made_descriptors_persistent": lambda nc, cmds: (nc, [("X", [("f", 5, "w", 1), ("f", 6, "r", 3), ("f", 7, "a", 2)])] + list(cmds)),
+    "noclobber_flipped": lambda nc, cmds: (not nc, list(cmds)),
+}
+
+# contexts only the shells can express: brush against bash on identical text.  value: (wrapper, descriptors the wrapper itself
+# holds redirected around the case — an `exec` on one of those inside the case is finding C10-12)
+TEXT_CONTEXTS = {
+    "whole_script_in_function": (lambda pre, b: pre + "ctxf() {\n" + b + "}\nctxf\n", set()),
+    "command_substitution": (lambda pre, b: pre + "ctxv=$(\n" + b + ")\nprintf '%s\\n' \"$ctxv\"\n", {1}),
+    "eval": (lambda pre, b: pre + "eval '" + b + "'\n", set()),
+    "pipeline_first_stage": (lambda pre, b: pre + "{\n" + b + "} | cat\n", {1}),
+    "pipeline_middle_stage": (lambda pre, b: pre + ": | {\n" + b + "} | cat\n", {0, 1}),
+    "pipeline_last_stage": (lambda pre, b: pre + ": | {\n" + b + "}\n", {0}),
+    "pipeline_last_stage_lastpipe": (lambda pre, b: pre + "shopt -s lastpipe\n: | {\n" + b + "}\n", {0}),
+    "exit_trap": (lambda pre, b: pre + "trap '" + b + "' EXIT\n", set()),
+    "sourced_file": (lambda pre, b: pre + "cat > \"$C10_BASE/src.sh\" <<'SRCEOF'\n" + b + "SRCEOF\n. \"$C10_BASE/src.sh\"\n", set()),
+    "while_read_fed_by_done_redirect": (lambda pre, b: pre + "echo Hfeed >|feed\nwhile read ctxl; do\n" + b + "done <feed\n", {0}),
+}
+# options that must not change what a redirection does (`set -o posix` is left out: bash's POSIX mode makes a failing
+# redirection on the special builtin `exec` fatal, which the property does not speak about; `set -e` is left out because the
+# cases contain failing commands on purpose)
+OPTIONS = ["set -u", "set -f", "set -E", "set -T", "set +h", "shopt -s extglob", "shopt -s nullglob", "shopt -s dotglob",
+           "shopt -s nocasematch", "shopt -s globstar", "shopt -s expand_aliases", "shopt -s lastpipe", "shopt -s inherit_errexit"]
+
+SWEEP_CLAUSES = ["heredoc_operator_line_scrambled_by_nested_construct"]
+
+# fixed scripts for forms and situations the generators above do not produce
+FAMILY = [
+    # `&>` / `&>>` / `>&word`: a number is a descriptor after `>&` and a file name after `&>`
+    "echo B1 >&2; echo B2 &>2; echo B3 >&nm; echo B4 &>>2; z=2; echo B5 >&$z; z=nm2; echo B6 >&$z; echo B7 1>&nm3\n$P p1\n",
+    "echo B8 2>&nm4; echo \"S$?\"; $P p2 >&7; echo \"S$?\"; $P p3 7>&1 >&7; $P p4\n",
+    # a here-document inside a function is expanded at each call
+    "f() { $P p1 <<EOF\nH$x\nEOF\n}\nx=1; f; x=2; f; f <<<H3\n",
+    "f() { $P p1 <<EOF\nH$x\nEOF\n} 3<<EOF\nD$x\nEOF\nx=1; f; x=2; f\n",
+    "f() { $P p1 3<<'EOF' 4<<-EOF\nH$x\nEOF\n\tH$x\n\tEOF\n}\nx=1; f; x=2; (f)\n",
+    # process substitutions as redirection targets
+    "$P p1 < <(echo Hps)\n$P p2 3< <(echo Hps3) 0<&3\n$P p3\n",
+    "exec 4< <(echo Hps4)\n$P p1\nexec 4<&-\n$P p2\n",
+    "echo B1 > >(cat >fc); sleep 0.3; $P p1 <fc\n",
+    "f() { $P p1; } < <(echo Hpsf)\nf; f 0<&-; f <<<Hs\n$P p2\n",
+    # the same redirected commands over and over in one shell: the table is back where it was each time
+    "for i in 1 2 3 4 5 6; do $P p$i 3>a 4<ex 2>&1 >b <<<H$i; { echo B$i; } 5>>c >&5; done\n$P p9\n",
+    "exec 3>a 4<ex\nfor i in 1 2 3; do echo B$i >&3; f() { $P p$i 3>&- 5<&4; }; f; ( exec 4<&- 3>b; $P q$i ); done\n$P p9\nexec 3>&- 4<&-\n$P p0\n",
+    "exec 3>a\n$P p1 3>&-\necho B1 3>&- >&3\necho \"S$?\" >&2\nf() { $P p2; }; f 3>&-\n$P p3 4>&3- \n$P p4\n",
+    # finding C10-13: an expansion with braces / parentheses after a here-document operator on the same line
+    ("f=a\n$P p1 <<E1 >\"${f}\"\nH6\nE1\n$P p2\n", "heredoc_operator_line_scrambled_by_nested_construct"),
+    ("$P p1 <<E1 3>$(echo b)\nH6\nE1\n$P p2\n", "heredoc_operator_line_scrambled_by_nested_construct"),
+]
+
+
+_HD_THEN_MORE = re.compile(r"(?<!<)<<-?(?!<)[^ \t\n;)]+(?=[ \t;)])[ \t]*[^ \t\n]")
+
+
+def heredoc_before_paren(script):
+    """a line holding a here-document operator and more text after the delimiter word: inside `$( )` brush queues the tokens
+    that follow the operator on that line and appends the characters that end nested constructs at once, so the two get out of
+    order (finding C10-13)"""
+    return any(_HD_THEN_MORE.search(l) for l in script.split("\n"))
+
+
+def sweep(ctx, infos):
+    rng = random.Random(ctx.rng.getrandbits(48))
+    base = [x for x in infos if x[4]]
+    if not base:
+        return
+    # (A) contexts expressed in the model
+    na = ctx.size(40, 1200)
+    cases = []
+    for nc, cmds, kind, notes, _ in (rng.sample(base, min(na, len(base)))):
+        for name, f in MODEL_CONTEXTS.items():
+            nc2, cmds2 = f(nc, cmds)
+            cases.append((nc2, cmds2, "ctx:" + name))
+    decide_fd(ctx, cases)
+    # (B) contexts and options only the shells express
+    nb = ctx.size(70, 1500)
+    jobs = []
+    for nc, cmds, kind, notes, _ in (rng.sample(base, min(nb, len(base)))):
+        pre = "set -C\n" if nc else ""
+        body = script_of(False, cmds)
+        if "'" in body:
+            continue
+        for name, (wrap, shadow) in TEXT_CONTEXTS.items():
+            if name == "command_substitution" and "1<>" in body:
+                # bash 5.2 re-creates the text of `$( )` from its parse tree and prints `1<>file` as `<>file` (descriptor 0)
+                continue
+            jobs.append(("ctx:" + name, shadow, nc, cmds, notes, wrap(pre, body)))
+        for o in (OPTIONS if not ctx.quick else rng.sample(OPTIONS, 2)):
+            jobs.append(("opt:" + o, set(), nc, cmds, notes, o + "\n" + pre + body))
+    for fs in FAMILY:
+        fs, fclause = fs if isinstance(fs, tuple) else (fs, None)
+        jobs.append(("family", fclause, False, [], ["-"], fs))
+        jobs.append(("family", fclause, False, [], ["-"], "f9() {\n" + fs + "}\nf9\n"))
+    scripts = [j[5] for j in jobs]
+    okb, bouts, eb = run_shell_cases(scripts, "brush")
+    oko, oouts, eo = run_shell_cases(scripts, "bash")
+    if not (okb and oko):
+        ctx.broken.append("harness c10 died in the context sweep: " + (eb + eo)[:300])
+    nviol = 0
+    for (name, shadow, nc, cmds, notes, script), b, o in zip(jobs, bouts, oouts):
+        ctx.count(("sweep", script), bucket=name)
+        ctx.impl_validated += 1
+        B, O = canon_resp(b), canon_resp(o)
+        if B == O:
+            continue
+        case = {"context": name, "script": script, "brush": b, "bash": o}
+        clause = clause_for(nc, cmds, notes)
+        if name == "family":
+            clause = shadow                      # the clause the family script is a witness of, if any
+        elif shadow & exec_own_fds(cmds):
+            clause = CLAUSES[0]
+        if name == "ctx:command_substitution" and heredoc_before_paren(script):
+            clause = SWEEP_CLAUSES[0]
+        if clause is not None:
+            ctx.known_or_violation(clause, "brush differs from bash in context %s" % name, case)
+        elif nviol < 15:
+            nviol += 1
+            ctx.violation("brush differs from bash in context %s (the case agrees at top level)" % name, case)
 
 
 # -- here-documents -------------------------------------------------------------------------------
@@ -732,9 +926,10 @@ def run(ctx):
     for i in range(ctx.size(1200, 25000)):
         g = Gen(random.Random(rng.getrandbits(48)), move=(i % 10 == 0))
         fd_cases.append((rng.random() < 0.25, g.script(), "rand"))
-    scripts, bouts = decide_fd(ctx, fd_cases)
+    scripts, bouts, infos = decide_fd(ctx, fd_cases)
     for i in (len(scripts) // 2, len(scripts) - 1):
         ctx.sample({"script": scripts[i], "brush": bouts[i]})
+    sweep(ctx, infos)
     hd_cases += heredoc_cases(ctx)
     hs = decide_heredoc(ctx, hd_cases)
     if hs:
@@ -746,7 +941,14 @@ def run(ctx):
                        "statuses, and per probe the readlink/mode of descriptors 0-9 plus markers written through each of them; "
                        "here-documents: exhaustive single lines (39 adversarial atoms) and ordered pairs (15 atoms) x 3 delimiter forms x <</<<-, "
                        "seeded random bodies, layouts plain / two per line / inside $( ) / inside a function / no final newline; "
-                       "non-trivial = at least one redirection / one body line")
+                       "non-trivial = at least one redirection / one body line; context sweep: a seeded sample of the cases re-run (a) with every "
+                       "top-level command inside a function, two functions deep, a function with a definition redirect, a subshell, a "
+                       "group with a redirect, a for body, a loop fed by its own `done <file`, run twice in one shell, after `exec` made "
+                       "descriptors 5-7 persistent, with noclobber flipped (all through the model), (b) as whole scripts inside a function, "
+                       "$( ), eval, the first/middle/last stage of a pipeline (lastpipe off and on), an EXIT trap, a sourced file, a "
+                       "`while read … done <file` body, and under 13 options that must not matter (brush against bash), plus fixed "
+                       "scripts for `&>`/`>&` number-vs-name, here-documents in functions called repeatedly, process substitutions as "
+                       "targets and repeated redirected commands")
     ctx.assumptions += ["bash 5.2.15 is the oracle; the flat POSIX reference semantics (Spec/FdFlat.lean) is compared with it on every case "
                         "(oracle_mismatch counts disagreements)",
                         "the kernel implements open/dup2/close/write as modelled by Sys (regular files, a directory, /dev/null, a missing parent)",
